@@ -3,7 +3,7 @@
     Sum64Uint8/16/32/64/128 exactly as the Go code computes them.
 
     A uint64 is an [N] below 2^64; every Go operation that can wrap is written
-    with an explicit [mod M64].  A byte is an [N] below 256.  The primes are
+    with an explicit truncation [w64] (= mod 2^64).  A byte is an [N] below 256.  The primes are
     the constants the translator copied from bloom/xxhash/xxhash.go
     (PQ.Generated.Consts), not literals of this file.
 
@@ -16,12 +16,18 @@ Open Scope N_scope.
 Definition M64 : N := Eval compute in 2 ^ 64.
 Definition M32 : N := Eval compute in 2 ^ 32.
 
+(* truncation to uint64 / uint32: x mod 2^64 and x mod 2^32, computed by
+   masking (Bloom/FilterProofs.v: w64_mod, w32_mod) *)
+Definition mask64 : N := Eval compute in 2 ^ 64 - 1.
+Definition mask32 : N := Eval compute in 2 ^ 32 - 1.
+Definition w64 (x : N) : N := N.land x mask64.
+Definition w32 (x : N) : N := N.land x mask32.
+
 (* uint64 arithmetic *)
-Definition w64 (x : N) : N := x mod M64.
-Definition add64 (a b : N) : N := (a + b) mod M64.
-Definition mul64 (a b : N) : N := (a * b) mod M64.
+Definition add64 (a b : N) : N := w64 (a + b).
+Definition mul64 (a b : N) : N := w64 (a * b).
 (* bits.RotateLeft64(x, r), 0 < r < 64 *)
-Definition rol64 (x r : N) : N := N.lor (N.shiftl x r mod M64) (N.shiftr x (64 - r)).
+Definition rol64 (x r : N) : N := N.lor (w64 (N.shiftl x r)) (N.shiftr x (64 - r)).
 
 (* xxhash.go constants *)
 Definition prime1 : N := Z.to_N go_bloom_xxhash_prime1.
